@@ -48,6 +48,94 @@ CMAPS = [
     ("90ms-RKSJ-H", "Foo1", [b"AB", b"\x82\xa0"]),     # unknown ordering -> no unicode map
     ("90ms-RKSJ-V", "Japan1", [b"AB\x82\xa0"]),        # vertical writing
 ]
+
+
+def _load_cmap_data(name: str):
+    import gzip
+    import os
+    import pickle
+    path = os.path.join(os.environ.get("VERIF_REPO", "/repo"), "pdfminer", "cmap", name + ".pickle.gz")
+    if not os.path.exists(path):
+        return None
+    with gzip.open(path) as fp:
+        return pickle.loads(fp.read())          # the package's own data files, read as data
+
+
+def _decode(code2cid, s: bytes) -> List[int]:
+    out, d = [], code2cid
+    for b in s:
+        if b in d:
+            x = d[b]
+            if isinstance(x, int):
+                out.append(x)
+                d = code2cid
+            else:
+                d = x
+        else:
+            d = code2cid
+    return out
+
+
+def _two_byte_codes(code2cid) -> List[bytes]:
+    res = []
+    for a, x in code2cid.items():
+        if isinstance(x, dict):
+            for b, y in x.items():
+                if isinstance(y, int):
+                    res.append(bytes([a, b]))
+    return res
+
+
+def writing_mode_pairs() -> List[Tuple[str, str, List[bytes]]]:
+    """Same character collection in horizontal and vertical writing: (name-H, name-V) pairs whose
+    sample strings contain codes whose unicode value DIFFERS between the two tables of the collection
+    (arrows, brackets, punctuation), mixed with codes that do not."""
+    out: List[Tuple[str, str, List[bytes]]] = []
+    for stem, ordering in [("Identity", "Japan1"), ("Identity", "Korea1"), ("Identity", "GB1"), ("Identity", "CNS1"),
+                           ("90ms-RKSJ", "Japan1"), ("KSC-EUC", "Korea1"), ("GB-EUC", "GB1"), ("B5pc", "CNS1")]:
+        um = _load_cmap_data("to-unicode-Adobe-" + ordering)
+        if um is None:
+            continue
+        H, V = um["CID2UNICHR_H"], um["CID2UNICHR_V"]
+        differ = sorted(k for k in set(H) | set(V) if H.get(k) != V.get(k))
+        same = sorted(k for k in H if H.get(k) == V.get(k))[40:44]
+        if not differ:
+            continue
+        if stem == "Identity":
+            cids = differ[:3] + same[:2] + differ[-2:]
+            samples = [b"".join(struct.pack(">H", c) for c in cids[:4]), b"".join(struct.pack(">H", c) for c in cids[3:])]
+        else:
+            cms = [_load_cmap_data(stem + sfx) for sfx in ("-H", "-V")]
+            if cms[0] is None or cms[1] is None:
+                continue
+            dset = set(differ)
+            hot: List[bytes] = []
+            cold: List[bytes] = []
+            for cm in cms:
+                for c in _two_byte_codes(cm["CODE2CID"]):
+                    (hot if any(k in dset for k in _decode(cm["CODE2CID"], c)) else cold).append(c)
+            hot = sorted(set(hot))
+            cold = sorted(set(cold) - set(hot))
+            if not hot:
+                continue
+            samples = [b"".join(hot[:3] + cold[:1]), b"".join(cold[1:2] + hot[-2:])]
+        out.append((stem + "-H", ordering, samples))
+        out.append((stem + "-V", ordering, samples))
+    return out
+
+
+_PAIRS: Optional[List[Tuple[str, str, List[bytes]]]] = None
+
+
+def all_cmaps() -> List[Tuple[str, str, List[bytes]]]:
+    """CMAPS (hand-picked, incl. missing CMap / unknown ordering) followed by the writing-mode pairs,
+    -H and -V of one collection adjacent."""
+    global _PAIRS
+    if _PAIRS is None:
+        _PAIRS = writing_mode_pairs()
+    return CMAPS + _PAIRS
+
+
 SIMPLE_BYTES = list(range(65, 91)) + list(range(97, 123)) + [32, 32, 33, 39, 45, 96, 0x80, 0x85, 0x8A, 0xA4,
                                                            0xA7, 0xC9, 0xD0, 0xE9, 0xF1, 0xFC, 40, 41, 92]
 
@@ -175,6 +263,8 @@ class FontDesc:
         self.umap: Optional[str] = None  # unicode map name looked up in CMapDB
         self.usecmap: Optional[str] = None  # `usecmap` inside the ToUnicode stream: looked up in CMapDB, then ignored
         self.multibyte = False
+        self.vertical = False
+        self.identity = False           # composite font with Identity-H/V and a predefined collection
         self.samples: List[bytes] = []
 
 
@@ -197,8 +287,19 @@ class Plan:
         self.simple = ["std14", "type1", "truetype", "type3"]
         rng.shuffle(self.simple)
         self.simple_i = 0
-        self.cmaps = list(range(len(CMAPS)))
-        rng.shuffle(self.cmaps)
+        # predefined CMaps: the writing-mode pairs first (a rotating start, -H and -V adjacent so that both
+        # land in the same pool), then the hand-picked ones
+        n0, allc = len(CMAPS), all_cmaps()
+        pairs = [[i, i + 1] for i in range(n0, len(allc) - 1, 2)]
+        if pairs:
+            k = rng.randrange(len(pairs))
+            pairs = pairs[k:] + pairs[:k]
+            for pr in pairs:
+                rng.shuffle(pr)
+        rest = list(range(n0))
+        rng.shuffle(rest)
+        self.cmaps = [i for pr in pairs[:3] for i in pr] + rest + [i for pr in pairs[3:] for i in pr]
+        self.cmap_i = 0
         self.other_i = 0
         self.seen: List[str] = []
 
@@ -212,9 +313,10 @@ class Plan:
     def next_other(self):
         """alternates Identity-H and the predefined CMaps"""
         self.other_i += 1
-        if self.other_i % 3 == 0:
+        if self.other_i % 3 == 0:               # after every complete -H/-V pair
             return ("cid-identity", None)
-        return ("cid-predef", self.cmaps[self.other_i % len(self.cmaps)])
+        self.cmap_i += 1
+        return ("cid-predef", self.cmaps[(self.cmap_i - 1) % len(self.cmaps)])
 
 
 def gen_encoding(rng, fd: FontDesc, alloc, plan: Optional[Plan] = None) -> Any:
@@ -357,7 +459,9 @@ def gen_font(rng, alloc, plan: Optional[Plan] = None, force: Optional[str] = Non
     else:
         fd.kind = "cid-predef"
         fd.multibyte = True
-        name, ordering, samples = rng.choice(CMAPS) if forced_cmap is None else CMAPS[forced_cmap]
+        name, ordering, samples = rng.choice(all_cmaps()) if forced_cmap is None else all_cmaps()[forced_cmap]
+        fd.vertical = name.endswith("-V")
+        fd.identity = name.startswith("Identity-")
         dn = alloc()
         dfont = {"Type": "Font", "Subtype": "CIDFontType0", "BaseFont": "GenCJK",
                  "CIDSystemInfo": {"Registry": b"Adobe", "Ordering": ordering.encode(), "Supplement": 2},
@@ -371,8 +475,10 @@ def gen_font(rng, alloc, plan: Optional[Plan] = None, force: Optional[str] = Non
         fd.reads.append(dn)
         fd.obj = {"Type": "Font", "Subtype": "Type0", "BaseFont": "GenCJK-" + name, "Encoding": name,
                   "DescendantFonts": [Ref(dn)]}
-        fd.cmap = name
+        fd.cmap = None if fd.identity else name        # Identity-H/V never reach CMapDB
         fd.umap = "Adobe-" + ordering
+        if plan is not None:
+            plan.seen.append("cmap:%s:%s" % (name, ordering))
         fd.samples = samples
     return fd
 
@@ -412,6 +518,7 @@ class Doc:
         self.all_objnums: List[int] = []
         self.features: List[str] = []
         self.plan_seen: List[str] = []
+        self.bulk = False
 
 
 def content_names(b: bytes) -> List[str]:
@@ -497,7 +604,7 @@ def gen_doc(rng, idx: int, plan: Optional[Plan] = None) -> Doc:
     fonts: List[FontDesc] = []
     for k in range(nfonts):
         # font 0: simple font with the next planned encoding; font 1: next planned composite font
-        fd = gen_font(rng, mk_alloc(k), plan, "simple" if k in (0, 2) else "other" if k == 1 else None)
+        fd = gen_font(rng, mk_alloc(k), plan, "simple" if k in (0, 2) else "other")
         fonts.append(fd)
         objs[FONT_BASE + k] = fd.obj
         objs.update(fd.aux)
@@ -735,6 +842,72 @@ def gen_doc(rng, idx: int, plan: Optional[Plan] = None) -> Doc:
             d.features.append("enc:differences")
         if fd.tounicode:
             d.features.append("tounicode")
+    return d
+
+
+BULK = 70000      # more distinct names / keywords than any power-of-two table limit up to 2**16
+
+
+def gen_bulk_doc(rng, idx: int) -> Doc:
+    """An unusual but valid document that makes the PROCESS-WIDE tables grow a lot: page 0 carries
+    BULK distinct marked-content tags (/Tnnnnn MP -> interned names) and BULK distinct unknown operators
+    (-> interned keywords) spread over many Flate-compressed content streams (-> many cached objects);
+    page 1 is an ordinary page.  Whatever is extracted after it in the same process must not change."""
+    d = Doc()
+    d.idx = idx
+    d.npages = 2
+    fd = FontDesc()
+    fd.kind = "std14"
+    fd.obj = {"Type": "Font", "Subtype": "Type1", "BaseFont": "Helvetica"}
+    objs: Dict[int, Any] = {CATALOG: {"Type": "Catalog", "Pages": Ref(PAGES)}, FONT_BASE: fd.obj}
+    d.fonts[FONT_BASE] = fd
+    # many font objects (font cache growth): clones with every base-encoding spelling
+    nfonts = 150
+    many: List[Tuple[str, int, FontDesc]] = []
+    for j in range(nfonts):
+        f = FontDesc()
+        f.kind = "std14"
+        f.base = j % len(BASE_ENC_MENU)
+        f.obj = {"Type": "Font", "Subtype": "Type1", "BaseFont": STD14[j % len(STD14)], "Encoding": BASE_ENC_MENU[f.base]}
+        objs[1000 + j] = f.obj
+        d.fonts[1000 + j] = f
+        many.append(("G%d" % j, 1000 + j, f))
+    nstreams = 400          # many content streams (object cache growth)
+    tag0 = rng.randrange(10) * 100000
+    chunks = []
+    per = BULK // nstreams + 1
+    for j in range(nstreams):
+        lo, hi = j * per, min(BULK, (j + 1) * per)
+        body = b"".join(b"/T%06d MP\n" % (tag0 + i) for i in range(lo, hi)) + \
+            b"".join(b"zq%06d\n" % (tag0 + i) for i in range(lo, hi))
+        chunks.append(body)
+    first = b"BT /F1 12 Tf 72.5 700 Td (bulk AZ) Tj ET\n"
+    refs = []
+    base = 200
+    for j, body in enumerate([first] + chunks):
+        objs[base + j] = Stream({"Filter": "FlateDecode"}, zlib.compress(body))
+        refs.append(Ref(base + j))
+    res = {"Font": {"F1": Ref(FONT_BASE)}}
+    res0 = {"Font": dict({"F1": Ref(FONT_BASE)}, **{nm: Ref(n) for nm, n, _ in many})}
+    objs[12] = {"Type": "Page", "Parent": Ref(PAGES), "MediaBox": [0, 0, 612, 792], "Resources": res0, "Contents": refs}
+    objs[10] = Stream({}, b"BT /F1 11 Tf 80.25 650 Td (after the bulk page) Tj ET\n")
+    objs[15] = {"Type": "Page", "Parent": Ref(PAGES), "MediaBox": [0, 0, 612, 792], "Resources": res, "Contents": Ref(10)}
+    objs[PAGES] = {"Type": "Pages", "Kids": [Ref(12), Ref(15)], "Count": 2}
+    d.data = W.build_pdf(objs, CATALOG)
+    d.open_reads = [CATALOG]
+    d.all_objnums = sorted(objs)
+    d.walk_reads = [[PAGES, 12], [15, 10]]
+    d.proc_reads = [[FONT_BASE] + [n for _, n, _ in many] + [r.n for r in refs], [FONT_BASE]]
+    d.page_fontids = [[FONT_BASE] + [n for _, n, _ in many], [FONT_BASE]]
+    d.page_fonts = [[("F1", FONT_BASE, fd)] + many, [("F1", FONT_BASE, fd)]]
+    d.page_shows = [[(fd, b"bulk AZ")], [(fd, b"after the bulk page")]]
+    d.page_gops = [[], []]
+    names = set(content_names(d.data)) | {"F1"}
+    names.update("T%06d" % (tag0 + i) for i in range(BULK))
+    d.names = sorted(names)
+    d.features = ["bulk:names=%d" % BULK, "bulk:keywords=%d" % BULK, "bulk:content-streams=%d" % (nstreams + 1),
+                  "bulk:fonts=%d" % (nfonts + 1)]
+    d.bulk = True
     return d
 
 
